@@ -176,6 +176,12 @@ def parse_vc(path, into=None, features=()):
         if line.startswith('# ') or line == '#' or (line.startswith('#') and sec is None):
             continue
         m = SECTION_RE.match(line) if (line and not line[0].isspace()) else None
+        if m and m.group(1) == 'hint' and '~' in line and line.rstrip().endswith(':'):
+            # text anchors may contain colons: the header ends at the last ':' of the line
+            class _M:
+                def __init__(s, a): s.a = a
+                def group(s, i): return ['', 'hint', s.a, ''][i]
+            m = _M(line.rstrip()[len('hint'):-1])
         if m and not (isinstance(cur, tuple) and cur[0] in ('raw', 'protofields')):
             flush()
             kind, arg, rest = m.group(1), m.group(2), m.group(3)
